@@ -6,6 +6,7 @@ package stream_test
 
 import (
 	"bytes"
+	"context"
 	"encoding/xml"
 	"fmt"
 	"testing"
@@ -44,4 +45,26 @@ func TestGvcAdapterHeader(t *testing.T) {
 	}
 	fmt.Printf("REPRODUCED header: not well-formed XML: %s: %v\n", buf.String(), err)
 	t.Fail()
+}
+
+// The language of a header written by Send is recovered by Expect.
+func TestGvcAdapterHeaderLang(t *testing.T) {
+	var buf bytes.Buffer
+	info := &stream.Info{XMLNS: "jabber:client"}
+	err := intstream.Send(struct {
+		*bytes.Buffer
+	}{&buf}, info, false, stream.DefaultVersion, "de-CH", "example.net", "me@example.net", "abc")
+	if err != nil {
+		fmt.Printf("NOT-REPRODUCED header lang: Send failed: %v\n", err)
+		return
+	}
+	var got stream.Info
+	d := xml.NewDecoder(bytes.NewReader(buf.Bytes()))
+	err = intstream.Expect(context.Background(), &got, d, true, false)
+	if err == nil && got.Lang != "de-CH" {
+		fmt.Printf("REPRODUCED header: language not recovered from %s: lang=%q\n", buf.String(), got.Lang)
+		t.Fail()
+		return
+	}
+	fmt.Printf("NOT-REPRODUCED header lang: lang=%q err=%v\n", got.Lang, err)
 }
